@@ -883,7 +883,7 @@ def run(rep, tier, rng):
     rep.coverage["paths"] = {"succeeded": {PATH_NAMES[k]: v for k, v in sorted(st["paths_ok"].items())},
                              "not_applicable_or_error": {PATH_NAMES[k]: v for k, v in sorted(st["paths_err"].items())},
                              "nodes_removed_by_prune": st["pruned_nodes"]}
-    rep.coverage["programs"] = {"base": len(gen.groups), "dropped_ill_typed": gen.dropped, "nodes_checked": st["nodes"],
+    rep.coverage["program_stats"] = {"base": len(gen.groups), "dropped_ill_typed": gen.dropped, "nodes_checked": st["nodes"],
                                 "distinct_structures": len(chk.keys.cmr_of), "hidden_child_variants": st["hidden_variants"],
                                 "mutants_built": st["mutants_built"], "policies": st["policies"], "jets_available": gen.n_jets}
     rep.coverage["rule"] = ("type-directed programs (Core + Elements jets, words of 2^0..2^10+ bits, fail, hidden branches, disconnect, "
